@@ -11,12 +11,18 @@ use wv_gen::log::Rec;
 /// `with_transform`: preserve_code_transform on and a harness section that writes the CodeTransform it is
 /// handed into its own payload, so that the emitted bytes depend on the offset map as well.
 fn once_cfg(input: &[u8], with_transform: bool) -> (String, Option<Vec<u8>>) {
+    once_cfg_mask(input, with_transform, 0)
+}
+
+/// `extra`: further configuration bits (256 = an on_instr_loc callback under which neighbouring instructions
+/// share an id, so that the offset map has to pick one of several entries per id: the last emitted one)
+fn once_cfg_mask(input: &[u8], with_transform: bool, extra: u32) -> (String, Option<Vec<u8>>) {
     if !with_transform {
         return once(input);
     }
     let ids = std::sync::Arc::new(std::sync::Mutex::new(crate::probe::InputIds::default()));
     let i2 = ids.clone();
-    let mut cfg = cfg_from_mask(DEFAULT_CFG | 64);
+    let mut cfg = cfg_from_mask(DEFAULT_CFG | 64 | extra);
     cfg.on_parse(move |m, idx| {
         let mut log = crate::probe::OnParseLog::default();
         crate::probe::observe_on_parse(m, idx, &mut log, false);
@@ -55,6 +61,37 @@ fn once_edited(input: &[u8]) -> (String, Option<Vec<u8>>) {
     match guarded(|| {
         cfg.parse(input).map(|mut m| {
             walrus::passes::gc::run(&mut m);
+            // lookups by name: names are long (cheap scans would finish before any work is stolen) and unique
+            // except for three adjacent pairs, placed where a split of the function list would separate them;
+            // `by_name` documents that it returns the first function of that name
+            let ids: Vec<walrus::FunctionId> = m.funcs.iter().map(|f| f.id()).collect();
+            let n = ids.len();
+            let prefix = "n".repeat(600);
+            for (i, id) in ids.iter().enumerate() {
+                m.funcs.get_mut(*id).name = Some(format!("{}{}", prefix, i));
+            }
+            let mut dups: Vec<(String, walrus::FunctionId)> = Vec::new();
+            for cut in [n / 2, n / 4, 3 * n / 4] {
+                if cut >= 1 && cut < n && !dups.iter().any(|d| d.1 == ids[cut - 1] || d.1 == ids[cut]) {
+                    let name = format!("{}dup{}", prefix, cut);
+                    m.funcs.get_mut(ids[cut - 1]).name = Some(name.clone());
+                    m.funcs.get_mut(ids[cut]).name = Some(name.clone());
+                    dups.push((name, ids[cut - 1]));
+                }
+            }
+            for round in 0..25 {
+                for (name, first) in &dups {
+                    let got = m.funcs.by_name(name);
+                    if got != Some(*first) {
+                        return Err(format!("by_name (lookup {}) returned function #{:?} instead of the first function of that name #{}", round, got.map(|g| g.index()), first.index()));
+                    }
+                }
+            }
+            if let Some((name, _)) = dups.first() {
+                if let Some(f) = m.funcs.by_name(name) {
+                    m.exports.add("wv_by_name", f);
+                }
+            }
             let mark = |id: walrus::FunctionId, f: &mut walrus::LocalFunction| {
                 let mut b = f.builder_mut().func_body();
                 b.const_at(0, walrus::ir::Value::I64(crate::scen_rt::MARKER ^ (id.index() as i64)));
@@ -89,7 +126,7 @@ fn once_edited(input: &[u8]) -> (String, Option<Vec<u8>>) {
         })
     }) {
         Ok(Ok(Ok(out))) => ("ok".into(), Some(out)),
-        Ok(Ok(Err(e))) => (format!("iter-mismatch:{}", e.chars().take(200).collect::<String>()), None),
+        Ok(Ok(Err(e))) => (format!("iter-mismatch:{}", e.chars().take(300).collect::<String>()), None),
         Ok(Err(e)) => (format!("err:{}", format!("{:#}", e).lines().next().unwrap_or("").chars().take(160).collect::<String>()), None),
         Err(p) => (format!("panic:{}", p), None),
     }
@@ -112,6 +149,11 @@ pub fn run(input: &[u8], _scn: &str, rec: &mut Rec) {
     rec.push_s("verdict_ct", &v2);
     if let Some(o) = out2 {
         rec.push_b("out_ct", &o);
+    }
+    let (v4, out4) = once_cfg_mask(input, true, 256);
+    rec.push_s("verdict_ctl", &v4);
+    if let Some(o) = out4 {
+        rec.push_b("out_ctl", &o);
     }
 }
 
@@ -230,6 +272,36 @@ pub fn run(input: &[u8], scn: &str, rec: &mut Rec) {
                         rec.push_s(&format!("verdict.{}", label), &v);
                         if let Some(o) = &out {
                             rec.push_b(&format!("out.{}", label), o);
+                        }
+                    }
+                }
+            }
+        }
+    }
+    // code-transform set again, with ids from a non-injective on_instr_loc callback
+    let mut first_ctl: Option<(String, Option<Vec<u8>>)> = None;
+    for &threads in (if lite { &[2usize][..] } else { &[2usize, 7, 16][..] }) {
+        let pool = match rayon::ThreadPoolBuilder::new().num_threads(threads).build() {
+            Ok(p) => p,
+            Err(_) => continue,
+        };
+        for m in 0u64..(if lite { 1 } else { 2 }) {
+            mode.store(m, Ordering::Relaxed);
+            let (v, out) = pool.install(|| once_cfg_mask(input, true, 256));
+            runs += 1;
+            match &first_ctl {
+                None => {
+                    rec.push_s("verdict_ctl", &v);
+                    if let Some(o) = &out {
+                        rec.push_b("out_ctl", o);
+                    }
+                    first_ctl = Some((v, out));
+                }
+                Some((v0, out0)) => {
+                    if *v0 != v || *out0 != out {
+                        rec.push_s(&format!("verdict.ctl.t{}m{}", threads, m), &v);
+                        if let Some(o) = &out {
+                            rec.push_b(&format!("out.ctl.t{}m{}", threads, m), o);
                         }
                     }
                 }
